@@ -181,6 +181,8 @@ def make_plan(seed: int, tier: str) -> dict:
         vp = {"visit_type": "dataframe", "table": rows, "table_cols": ["ID", "TIME"]}
         if st.bernoulli(0.4):
             vp["min_spacing_between_visits"] = st.choice([1 / 365, 0.1, 0.01, 1])
+        if st.bernoulli(0.4):
+            vp["index_style"] = st.choice(["permuted", "gaps", "repeated", "strings"])
     else:
         base = {"visit_type": "random", "patient_number": 3, "first_visit_mean": 0.0, "first_visit_std": 0.4, "time_follow_up_mean": 4.0,
                 "time_follow_up_std": 0.5, "distance_visit_mean": 1.0, "distance_visit_std": 0.2}
@@ -238,6 +240,16 @@ def build_vp(plan):
     vp = copy.deepcopy(plan["vp"])
     if "table" in vp:
         df = pd.DataFrame(vp.pop("table"), columns=vp.pop("table_cols"))
+        # row labels are not part of the design: a table that was sorted, filtered or concatenated keeps arbitrary labels
+        ist = vp.pop("index_style", "default")
+        if ist == "permuted" and len(df) > 1:
+            df.index = [(7 * i + 3) % len(df) if np.gcd(7, len(df)) == 1 else len(df) - 1 - i for i in range(len(df))]
+        elif ist == "gaps":
+            df.index = [10 + 3 * i for i in range(len(df))]
+        elif ist == "repeated":
+            df.index = [0] * len(df)
+        elif ist == "strings":
+            df.index = [f"row{i}" for i in range(len(df))]
         vp["df_visits"] = df
     if "table_raw" in vp:
         vp["df_visits"] = vp.pop("table_raw")
